@@ -620,7 +620,12 @@ class Base64Engine:
         else:
             # NOTE: this assumes ascii-compat encoding, and that
             # all chars used by encoding are 7-bit ascii.
-            last = self._encode64(self._decode64(last) & mask)
+            try:
+                value = self._decode64(last)
+            except KeyError:
+                # (same error class the text branch raises for a foreign character)
+                raise ValueError(f"invalid character in data: {source[-1:]!r}") from None
+            last = self._encode64(value & mask)
             assert last in padset, "failed to generate valid padding char"
             last = bytes([last])
         return True, source[:-1] + last
